@@ -245,4 +245,193 @@ theorem step_inlineUnsubscribe_inv {s : Server} (h : SyncInv s) (id : Nat) (filt
       fun hx => idxOK_inlineUnsubscribe _ hx _ _, fun q c => plainAt_inlineUnsubscribe _ _ _ q c,
       fun q g c => sharedAt_inlineUnsubscribe _ _ _ q g c⟩
 
+theorem step_connectHold_inv {s : Server} (h : SyncInv s) (hw : WF s) (conn : Nat) (k : Connect) (stage : Nat)
+    (hf : conn ∉ s.connOf.map (·.1)) : SyncInv (step s (.connectHold conn k stage)).1 := by
+  rw [step]
+  exact connectHold_inv h hw conn k stage hf
+
+theorem step_release_inv {s : Server} (h : SyncInv s) (hw : WF s) (conn : Nat) :
+    SyncInv (step s (.release conn)).1 := by
+  rw [step]
+  split
+  · rename_i p hp
+    have hmem : p ∈ s.pending := List.mem_of_find?_eq_some hp
+    have hpc : p.conn = conn := by
+      have := List.find?_some hp
+      simpa using this
+    have hv := hw.pending_valid p hmem
+    have w0 : WF { s with pending := s.pending.filter (·.conn != conn) } := hw.filterPending _
+    have h0 := SyncInv.filterPending h p hmem conn hpc
+    have hpf := h.pendFree p hmem
+    have hpi : ∀ q ∈ s.pending.filter (·.conn != conn), q.obj ≠ p.obj := by
+      intro q hq e
+      obtain ⟨hq1, hq2⟩ := List.mem_filter.mp hq
+      have := eq_of_nodup_map (·.obj) s.pending h.pendNodup q p hq1 hmem e
+      rw [this, hpc] at hq2
+      simp at hq2
+    have hns1 : p.stage ≠ 1 → ¬ Stage1 s p.obj := by
+      rintro hs ⟨q, hq, a, b⟩
+      have := eq_of_nodup_map (·.obj) s.pending h.pendNodup q p hq hmem b
+      rw [this] at a
+      exact hs a
+    split
+    rename_i s1 o h1
+    have r1 := connectRelease_inv p h0 w0 hv.1 hv.2 hpf.1 hpf.2 hpi (h.st1 p hmem) (by
+      intro hs
+      refine h0.weaken ?_
+      intro k hk hx _ ha ht _
+      have hx : k = p.obj := hx
+      subst hx
+      exact h.reg _ hk ha ht (fun x => x) (hns1 hs))
+    have wk := connectRelease_wf _ p w0 hv.1 hv.2
+    rw [h1] at r1 wk
+    obtain ⟨a1, l1⟩ := r1
+    obtain ⟨w1, k1⟩ := wk
+    replace a1 : SyncInv s1 := a1
+    replace l1 : Lst { s with pending := s.pending.filter (·.conn != conn) } s1 := l1
+    replace w1 : WF s1 := w1
+    replace k1 : Keep { s with pending := s.pending.filter (·.conn != conn) } s1 := k1
+    refine barrier_inv conn _ a1 w1 ?_
+    intro i hi
+    rw [k1.connOf] at hi
+    have hi : assocGet s.connOf conn = some i := hi
+    have hc := h.pendConn p hmem
+    rw [hpc, hi] at hc
+    cases hc
+    refine ⟨?_, ?_, ?_⟩
+    · rw [l1.parked]; exact hpf.1
+    · rw [l1.parkedEarly]; exact hpf.2
+    · rw [k1.pending]; exact hpi
+  · split
+    · exact h
+    · rename_i i hc
+      split
+      · rename_i hpk
+        have hm : i ∈ s.parked := List.contains_iff_mem.mp hpk
+        have hi := h.parkedLt i (Or.inl hm)
+        have a0 : SyncInv { s with parked := s.parked.filter (· != i) } :=
+          SyncInv.unpark h _ s.parkedEarly (fun k hk => (List.mem_filter.mp hk).1) (fun _ x => x)
+        have w0 : WF { s with parked := s.parked.filter (· != i) } := hw.upd rfl rfl rfl rfl
+        refine detachB_inv a0 w0 i hi (h.parkedStopped i hm) ?_ (h.disj i hm) ?_
+        · intro hx
+          have := (List.mem_filter.mp hx).2
+          simp at this
+        · cases hto : (getObj s i).takenOver with
+          | true => exact Or.inl hto
+          | false =>
+            right
+            refine h.reg i hi (Or.inr (Or.inl hm)) hto (fun x => x) ?_
+            rintro ⟨q, hq, _, b⟩
+            exact (h.pendFree q hq).1 (b ▸ hm)
+      · rename_i hnpk
+        have hnm : i ∉ s.parked := fun x => hnpk (List.contains_iff_mem.mpr x)
+        split
+        · rename_i hpe
+          have hm : i ∈ s.parkedEarly := List.contains_iff_mem.mp hpe
+          have hi := h.parkedLt i (Or.inr hm)
+          have a0 : SyncInv { s with parkedEarly := s.parkedEarly.filter (· != i) } :=
+            SyncInv.unpark h s.parked _ (fun _ x => x) (fun k hk => (List.mem_filter.mp hk).1)
+          have w0 : WF { s with parkedEarly := s.parkedEarly.filter (· != i) } := hw.upd rfl rfl rfl rfl
+          split
+          rename_i s1 o h1
+          have := detach_inv a0 w0 i hi true (fun x => by cases x) hnm (by
+              intro hx
+              have := (List.mem_filter.mp hx).2
+              simp at this) (by
+              cases hto : (getObj s i).takenOver with
+              | true => exact Or.inl hto
+              | false =>
+                right
+                refine h.reg i hi (Or.inr (Or.inr hm)) hto (fun x => x) ?_
+                rintro ⟨q, hq, _, b⟩
+                exact (h.pendFree q hq).2 (b ▸ hm))
+          rw [h1] at this
+          exact this
+        · exact h
+
+/-! ### `init`, `step`, `run` -/
+
+theorem SyncInv_init (caps : Caps) : SyncInv (init caps) := by
+  refine ⟨idxOK_empty, ?_, ?_, ?_, ?_, ?_, ?_, ?_, ?_, ?_, ?_, ?_, List.nodup_nil, ?_⟩
+  · rintro c f (⟨q, sub, hq, _⟩ | ⟨q, g, sub, hq, _⟩)
+    · simp [plainAt, init, getNode_nil] at hq
+    · simp [sharedAt, init, getNode_nil] at hq
+  · intro k fs hfs
+    have hs : (getObj (init caps) k).subs = [] := by
+      match k with
+      | 0 => rfl
+      | k + 1 => rfl
+    rw [hs] at hfs; cases hfs
+  · intro k
+    match k with
+    | 0 => rfl
+    | k + 1 => rfl
+  · intro k hk
+    match k with
+    | 0 => cases hk
+    | k + 1 => cases hk
+  · intro k hk _ _ _ _
+    have hk : k < 1 := hk
+    have : k = 0 := by omega
+    subst this
+    rfl
+  · intro c k hk
+    have hk : assocGet [(inlineID, 0)] c = some k := hk
+    simp only [assocGet] at hk
+    split at hk
+    · cases hk; rfl
+    · cases hk
+  · intro k hk
+    rcases hk with hk | hk <;> cases hk
+  · intro k hk; cases hk
+  · intro k hk; cases hk
+  · intro p hp; cases hp
+  · intro p hp; cases hp
+  · intro p hp; cases hp
+
+/-- **the invariant is kept by every op** that is fresh and respects the discipline of the schedule ops -/
+theorem SyncInv_step (s : Server) (op : Op) (h : SyncInv s) (hw : WF s) (hfresh : OpFresh s op)
+    (hok : SchedOK s op) : SyncInv (step s op).1 := by
+  cases op with
+  | connect conn k => exact step_connect_inv h hw conn k hfresh
+  | recv conn pk => exact step_recv_inv h hw conn pk hok
+  | drop conn => exact step_drop_inv h hw conn hok
+  | recvCut conn pk => exact step_recvCut_inv h hw conn pk hok
+  | dropHold conn => exact step_dropHold_inv h hw conn hok
+  | release conn => exact step_release_inv h hw conn
+  | dropHoldEarly conn => exact step_dropHoldEarly_inv h hw conn hok
+  | connectHold conn k stage => exact step_connectHold_inv h hw conn k stage hfresh
+  | tick kind t => exact step_tick_inv h hw kind t hok
+  | inlinePublish topic payload retain qos => exact step_inlinePublish_inv h topic payload retain qos
+  | inlineSubscribe id filter => exact step_inlineSubscribe_inv h id filter
+  | inlineUnsubscribe id filter => exact step_inlineUnsubscribe_inv h id filter
+
+/-- every op of the history respects the discipline of the schedule ops in the state it is applied to -/
+def OpsSchedOK (s : Server) : List Op → Prop
+  | [] => True
+  | op :: ops => SchedOK s op ∧ OpsSchedOK (step s op).1 ops
+
+instance instDecidableOpsSchedOK (s : Server) (ops : List Op) : Decidable (OpsSchedOK s ops) :=
+  match ops with
+  | [] => isTrue trivial
+  | op :: ops =>
+    match (inferInstance : Decidable (SchedOK s op)) with
+    | isFalse h => isFalse (fun g => h g.1)
+    | isTrue h =>
+      match instDecidableOpsSchedOK (step s op).1 ops with
+      | isFalse g => isFalse (fun g' => g g'.2)
+      | isTrue g => isTrue ⟨h, g⟩
+
+theorem SyncInv_run_from (s : Server) (ops : List Op) (h : SyncInv s) (hw : WF s) (hf : OpsFresh s ops)
+    (hok : OpsSchedOK s ops) : SyncInv (run s ops) := by
+  induction ops generalizing s with
+  | nil => exact h
+  | cons op ops ih =>
+    show SyncInv (run (step s op).1 ops)
+    exact ih _ (SyncInv_step s op h hw hf.1 hok.1) (WF_step s op hw hf.1) hf.2 hok.2
+
+theorem SyncInv_run (caps : Caps) (ops : List Op) (hf : OpsFresh (init caps) ops)
+    (hok : OpsSchedOK (init caps) ops) : SyncInv (run (init caps) ops) :=
+  SyncInv_run_from _ ops (SyncInv_init caps) (WF_init caps) hf hok
+
 end Mochi.Broker
